@@ -43,6 +43,7 @@ func vfNode() *node {
 		wait:          make(chan struct{}),
 	}
 	n.log = createLog(gen.LogLevelDisabled, n.dolog)
+	n.network = &network{node: n, mode: gen.NetworkModeDisabled}
 	return n
 }
 
